@@ -122,6 +122,15 @@ def run():
         cases.append(("avatar", seq, 0))
     for seq in avatar_cases():
         cases.append(("avatar", seq, 1))
+    # repetition: every sequence that can grow the document, 2..16 times in a row (growth must stay polynomial in the length
+    # of the input: a bound taken from the document instead of the screen compounds)
+    reps = []
+    for big in ("65536", "2147483647"):
+        for unit in (f"\x1b[{big}b", f"A\x1b[{big}b", f"\x1b[{big}L", f"\x1b[{big}S", f"\x1b[{big}T", f"\x1b[{big}@", f"\x1b[{big}B\n", f"\x1b[{big};{big}H\n", f"\x1b[{big}e\n", "\n\n\n\n", f"\x1b[{big}X", f"\x1b[{big}I"):
+            for k in (2, 3, 5, 8, 12, 16):
+                reps.append(esc("x" + unit * k))
+    for seq in reps:
+        cases.append(("ansi", seq, 0))
     combos = combo_cases()
     if not thorough:
         combos = rng.sample(combos, 1600)
